@@ -77,12 +77,15 @@ void audit(World& w, const char* where) {
 struct Src { ParameterList pl; vector<Obj> e; };
 Src genSrc(vf::Ctx& c, const World& w, const vector<int>& target, bool mostlyAcceptable) {
   Src s; int n = c.irange(0, 6); set<string> used;
+  // one third of the "not mostly acceptable" sources: every entry acceptable except one that is not the first
+  int forcedBad = -2; if (!mostlyAcceptable && c.oneIn(3)) { mostlyAcceptable = true; forcedBad = c.irange(1, 5); }
   for (int k = 0; k < n; ++k) {
     string nm;
     if (!target.empty() && !c.oneIn(4)) nm = w.objs[target[c.below(target.size())]].name; else nm = NAMES[c.below(10)];
     if (!used.insert(nm).second) continue;
     int t = w.find(target, nm);
-    double v = (t >= 0 && mostlyAcceptable && !c.oneIn(5)) ? insideVal(c, w.objs[target[t]].cons) : anyVal(c);
+    double v = (t >= 0 && mostlyAcceptable && (forcedBad != -2 || !c.oneIn(5))) ? insideVal(c, w.objs[target[t]].cons) : anyVal(c);
+    if (t >= 0 && static_cast<int>(s.e.size()) == forcedBad && w.objs[target[t]].cons >= 0) v = -1.5;   // rejected by every pool constraint except ]-inf;3]
     if (t >= 0 && c.oneIn(4)) v = w.objs[target[t]].v;       // same value: "nothing changed" entries
     int cons = c.oneIn(3) ? static_cast<int>(c.below(NPOOL)) : -1; if (!acc(cons, v)) cons = -1;
     s.e.push_back({nm, v, cons}); s.pl.addParameter(Parameter(nm, v, mk(cons)));
@@ -95,9 +98,15 @@ string showSrc(const Src& s) { ostringstream o; o << "{"; for (auto& e : s.e) o 
 LAW(L1_list_history, RC, 30000, 1500000, 400, "a bulk update whose rejected entry is not the first targeted one, or a name collision, or a mutation after copy/share") {
   World w; w.M.resize(3); for (int k = 0; k < 3; ++k) w.L.emplace_back(new ParameterList());
   bool ntRejectNotFirst = false, ntCollision = false, ntMutAfterShare = false, sharedOrCopied = false;
+  {  // initial population of list 0 (so that bulk operations have targets from the first operation on)
+    int n0 = c.irange(0, 7); c.desc << "L0={";
+    for (int k = 0; k < n0; ++k) { string nm = NAMES[c.below(10)]; if (w.find(w.M[0], nm) >= 0) continue; int cons = c.oneIn(3) ? -1 : static_cast<int>(c.below(NPOOL)); double v = insideVal(c, cons);
+      w.L[0]->addParameter(Parameter(nm, v, mk(cons))); w.M[0].push_back(w.newObj({nm, v, cons})); c.desc << nm << "=" << v << ":" << showC(cons) << " "; }
+    c.desc << "}; ";
+  }
   int nops = c.irange(1, 30);
   for (int op = 0; op < nops; ++op) {
-    size_t A = c.below(3), B = (A + 1 + c.below(2)) % 3;
+    size_t A = c.weighted({3, 1, 1}), B = (A + 1 + c.below(2)) % 3;
     ParameterList& la = *w.L[A]; vector<int>& ma = w.M[A]; ParameterList& lb = *w.L[B]; vector<int>& mb = w.M[B];
     int kind = static_cast<int>(c.below(30));
     c.desc << (op ? "; " : "") << "L" << A << ".";
